@@ -8,6 +8,8 @@ import (
 	"go/types"
 	"math/big"
 	"strings"
+
+	"golang.org/x/tools/go/ssa"
 )
 
 type Env struct {
@@ -57,6 +59,18 @@ func (e *Env) rv(v Val) Val {
 		return Val{T: "(seq.extract (select " + e.g.heap(st, "bytes") + " " + v.Win.arr + ") " + v.Win.off + " " + v.Win.n + ")", Sort: "(Seq Int)"}
 	}
 	t := e.g.loadType(st, v.Addr, v.GoT, false)
+	// memory is well typed: an integer cell holds a value of its type's range
+	if isInteger(v.GoT) && !strings.Contains(t, "q!") && e.g.lines != nil {
+		if rf := rangeFact(t, v.GoT); rf != "" {
+			if e.g.rangeSeen == nil {
+				e.g.rangeSeen = map[string]bool{}
+			}
+			if !e.g.rangeSeen[t] {
+				e.g.rangeSeen[t] = true
+				e.g.assume(rf)
+			}
+		}
+	}
 	return Val{T: t, Sort: e.u().sortOf(v.GoT), GoT: v.GoT}
 }
 
@@ -327,6 +341,13 @@ func (e *Env) ident(name string) Val {
 			case *types.Const:
 				return e.constVal(o.Val(), o.Type())
 			case *types.Var:
+				if sp := e.g.prog.ssa.Package(o.Pkg()); sp != nil {
+					if gl, ok := sp.Members[o.Name()].(*ssa.Global); ok {
+						if c, isConst := e.g.prog.constGlobals[gl]; isConst {
+							return e.g.constVal(c)
+						}
+					}
+				}
 				return Val{Addr: e.g.globalLoc(o), GoT: o.Type()}
 			}
 		}
